@@ -533,6 +533,7 @@ def gen_overflow(rng, tier):
                     yield Case("numcmp", [f, x])
 
 def generate(rng, tier):
+    yield Case("implset", [])        # the impl set the tables were transcribed from is still the one in /repo
     yield from gen_special(rng, tier)
     yield from gen_encl(rng, tier)
     yield from gen_overflow(rng, tier)
